@@ -2,10 +2,14 @@
 use crate::framework::CheckDef;
 
 pub mod c25;
+pub mod dsio;
 pub mod c26;
 pub mod c27;
 
 pub fn register(v: &mut Vec<CheckDef>) {
+    v.push(dsio::def_c01());
+    v.push(dsio::def_c02());
+    v.push(dsio::def_c04());
     v.push(c25::def());
     v.push(c26::def());
     v.push(c27::def());
